@@ -51,17 +51,16 @@ pub(crate) mod depcommon {
 			self.flushes += 1;
 			Ok(())
 		}
-	}
-
-	/// Contract used in place of `std::io::default_write_fmt` (the formatting machinery is far too
-	/// expensive for CBMC): literal-only arguments - which is all xt's Outputs use (`writeln!(w)`,
-	/// `writeln!(w, "---")`) - are written with write_all; anything else is outside these harnesses.
-	pub(crate) fn write_fmt_contract<W: io::Write + ?Sized>(this: &mut W, args: std::fmt::Arguments<'_>) -> io::Result<()> {
-		match args.as_str() {
-			Some(s) => this.write_all(s.as_bytes()),
-			None => {
-				kani::assume(false);
-				Ok(())
+		/// std's formatting machinery is far too expensive for CBMC. xt's Outputs only format
+		/// literal text (`writeln!(w)`, `writeln!(w, "---")`), for which the documented behaviour of
+		/// write_fmt is write_all of that text; anything else is outside these harnesses.
+		fn write_fmt(&mut self, args: std::fmt::Arguments<'_>) -> io::Result<()> {
+			match args.as_str() {
+				Some(s) => self.write_all(s.as_bytes()),
+				None => {
+					kani::assume(false);
+					Ok(())
+				}
 			}
 		}
 	}
